@@ -76,6 +76,16 @@ type CaseCfg struct {
 	Custom    map[string]*CustomOp
 	Stateless []string
 	Costs     map[string]float64
+	// Directive: when set, the source carries ";;;;" directives selecting this subset (Opts is only the base config)
+	Directive *OptSet
+}
+
+// EffectiveOpts: the optimization subset in force for the compilation.
+func (c CaseCfg) EffectiveOpts() OptSet {
+	if c.Directive != nil {
+		return *c.Directive
+	}
+	return c.Opts
 }
 
 func (c CaseCfg) String() string {
